@@ -1158,8 +1158,9 @@ def c01(run):
     try:
         probe = os.path.join(base, "probe")
         open(probe, "wb").close()
-        bsf = os.stat(probe).st_blksize          # buffer size the implementation sees for file-backed data
-        bsm = 8192                               # ... and for in-memory streams (no .name)
+        from universe import impl_buffer_size
+        bsf = impl_buffer_size("file")           # buffer size the implementation uses for file-backed data (measured on the live Stream)
+        bsm = impl_buffer_size("mem")            # ... and for in-memory streams (no .name)
         kinds = ["str", "Path", "file", "file@mid", "file@end", "bytesio", "bytesio@mid", "bufreader", "rwfile-unflushed", "file-path-replaced"]
         n = 0
         stores = {}
